@@ -257,7 +257,7 @@ def _rsa_pool(r, f, focus):
       if r.random() < 0.7:
         # mixed sizes in one batch: per-key limits (pattern sizes, bounds
         # derived from the bit length) must not leak to the neighbours
-        pool.append(A.rsa_short(r, r.choice([512, 768, 1024])))
+        pool.append(A.rsa_short(r, r.choice([512, 768, 768, 1024])))
     elif fam == "roca":
       pool.append(A.rsa_roca(r))
     elif fam == "denylisted":
@@ -395,6 +395,16 @@ def _gen_rsa(r, tier, f, focus):
     if r.random() < 0.3:
       add_check()
     ops.append({"op": "heal"})
+  big = [j for j in range(n) if pool[j]["fam"] == "bit_pattern"]
+  small = [j for j in range(n) if pool[j]["fam"] == "short"]
+  if big and small and r.random() < 0.7:
+    # the same keys small-before-large and large-before-small
+    nm = r.choice(["CheckBitPatterns", "CheckBitPatterns",
+                   "CheckPermutedBitPatterns", "CheckContinuedFractions"])
+    for order in ([small[0], big[0]], [big[0], small[0]]):
+      ops.append({"op": "check", "batch": order, "oracle": [], "c07": True,
+                  "check": {"name": nm, "how": "registry", "via": "all"}})
+    length += 2
   dups = {}
   for j, a in enumerate(pool):
     dups.setdefault(int(a["n"], 16) if a["n"] else 0, []).append(j)
